@@ -148,12 +148,17 @@ def gen_call(kind, world, rng, cur_map, cur_items):
             return ("remove_item", o)
         k = rng.randrange(0, 3)
         objs = [world.item(rng.choice(["a", "b"]), rng.randrange(3)) for _ in range(k)]
+        if objs and rng.random() < 0.25:
+            objs[rng.randrange(len(objs))] = world.other()          # an element of the wrong kind inside a bulk call
         if q < 0.8:
             chs = None if rng.random() < 0.5 else [rng.choice([0, 1, 2, 3, 7, 9]) for _ in range(k)]
             return ("add_many", objs, chs)
         return ("assign_pairs", objs, [rng.choice([0, 1, 2, 3, 7]) for _ in range(k)])
-    k = rng.randrange(0, 3)
-    return ("assign_items", [world.item("", rng.randrange(3)) for _ in range(k)])
+    k = rng.randrange(0, 4)
+    objs = [world.item("", rng.randrange(3)) for _ in range(k)]
+    if objs and rng.random() < 0.35:
+        objs[rng.randrange(len(objs))] = world.other()
+    return ("assign_items", objs)
 
 
 def perform(kind, b, call):
